@@ -1,11 +1,12 @@
 import Mdsort.Proofs.EvalAtt
 
 /-!
-# `C03_eval_refines_spec` as a corollary of `C03_eval_refines_spec_att`
+# `C03_eval_refines_spec_wide` / `C03_eval_refines_spec` as corollaries of `C03_eval_refines_spec_att_wide`
 
-On a tree without attachment nodes (`wfTree`) the grammar shape `parseRuleA` recognises is the one
-`parseRule` recognises, `evalRulesA` on the message itself computes what `evalRules` computes (every
-action tagged with part 0, `leaks` never set), and `InDomain` implies `InDomainA`.
+On a tree without attachment nodes (`wfTree`) the grammar shape `parseRuleAW` recognises is the one
+`parseRuleW` recognises, `evalRulesA` on the message itself computes what `evalRules` computes (every
+action tagged with part 0, `leaks` never set), and `InDomain` implies `InDomainA`.  The shape with
+`pass` / `break` last (`parseRule`) is a special case of `parseRuleW` (`parseBlockW_of_parseBlock`).
 -/
 
 namespace Mdsort.Proofs
@@ -92,80 +93,138 @@ theorem att_wfTree_orChain : ∀ (e : Expr), wfTree e = true → ∀ x ∈ orCha
 
 /-! ## the shape -/
 
-theorem att_parseActA_plain {a : Expr} (h : isActionExpr a = true) : parseActA a = some (.plain a) := by
-  cases a <;> simp [isActionExpr] at h <;> simp [parseActA, isActionExpr]
+theorem att_parseActA_plain {a : Expr} (h : isActionExpr a = true) : parseActAW a = some (.plain a) := by
+  cases a <;> simp [isActionExpr] at h <;> simp [parseActAW, isActionExpr]
 
 theorem att_isCtl_of_action {a : Expr} (h : isActionExpr a = true) : isCtlExpr a = Option.none := by
   cases a <;> simp [isActionExpr] at h <;> rfl
 
-theorem att_parseChainA_plain : ∀ (e : Expr), (∀ a ∈ andChain e, isActionExpr a = true) →
-    parseChainA e = some ((andChain e).map ActA.plain) := by
+/-- The items of a list whose non-control elements are plain actions. -/
+theorem att_parseItems_plain : ∀ (xs : List Expr),
+    (∀ a ∈ xs.filter (fun x => (isCtlExpr x).isNone), isActionExpr a = true) →
+    att_parseItems xs = some ((xs.filter fun x => (isCtlExpr x).isNone).map ActA.plain) := by
+  intro xs
+  induction xs with
+  | nil => intro _; rfl
+  | cons x xs ih =>
+    intro h
+    by_cases hx : (isCtlExpr x).isSome = true
+    · have hn : (isCtlExpr x).isNone = false := by
+        cases hh : isCtlExpr x <;> simp [hh] at hx ⊢
+      simp only [att_parseItems, hx, if_true, List.filter_cons, hn, Bool.false_eq_true, if_false]
+      exact ih (by simpa [List.filter_cons, hn] using h)
+    · have hn : (isCtlExpr x).isNone = true := by
+        cases hh : isCtlExpr x <;> simp [hh] at hx ⊢
+      have hax : isActionExpr x = true := h x (by simp [hn])
+      have hrest := ih (fun a ha => h a (by simp only [List.filter_cons, hn, if_true]; exact List.mem_cons_of_mem _ ha))
+      simp only [att_parseItems, hx, Bool.false_eq_true, if_false, att_parseActA_plain hax, hrest, List.filter_cons, hn,
+        if_true, List.map_cons]
+
+/-- A rule with actions that `parseRuleW` accepts is accepted by `parseRuleAW`, with the same
+condition, the same actions and the same control. -/
+theorem att_parseRuleA_acts (lno : Nat) (c rhs : Expr) (as : List Expr) (ctl : Ctl) (hc : isCond c = true)
+    (hnb : ∀ l e, rhs ≠ .block l e) (hsp : splitActsW (andChain rhs) = some (as, ctl)) :
+    parseRuleAW (.mtch lno c rhs) = some (.acts lno c (as.map ActA.plain) ctl) := by
+  rw [parseRuleAW_acts_eq lno c rhs hc hnb]
+  unfold splitActsW at hsp
+  cases hctl : ctlOfList (andChain rhs) with
+  | none => simp [hctl] at hsp
+  | some ctl' =>
+    simp only [hctl] at hsp
+    split at hsp
+    · rename_i hcond
+      simp only [Option.some.injEq, Prod.mk.injEq] at hsp
+      obtain ⟨rfl, rfl⟩ := hsp
+      simp only [Bool.and_eq_true, List.all_eq_true] at hcond
+      rw [att_parseItems_plain _ hcond.2]
+    · cases hsp
+
+def parseAllW : List Expr → Option (List Rule)
+  | [] => some []
+  | x :: xs =>
+    match parseRuleW x, parseAllW xs with
+    | some r, some rs => some (r :: rs)
+    | _, _ => Option.none
+
+theorem parseAllW_snoc : ∀ (xs : List Expr) (rs : List Rule) (x : Expr) (r : Rule),
+    parseAllW xs = some rs → parseRuleW x = some r → parseAllW (xs ++ [x]) = some (rs ++ [r]) := by
+  intro xs
+  induction xs with
+  | nil =>
+    intro rs x r h hx
+    simp only [parseAllW, Option.some.injEq] at h
+    subst h
+    simp [parseAllW, hx]
+  | cons y ys ih =>
+    intro rs x r h hx
+    simp only [parseAllW] at h
+    cases hy : parseRuleW y with
+    | none => simp [hy] at h
+    | some ry =>
+      cases hys : parseAllW ys with
+      | none => simp [hy, hys] at h
+      | some rys =>
+        simp only [hy, hys, Option.some.injEq] at h
+        subst h
+        simp [parseAllW, hy, ih rys x r hys hx]
+
+theorem parseRulesW_orChain : ∀ (e : Expr) (rs : List Rule), parseRulesW e = some rs → parseAllW (orChain e) = some rs := by
   intro e
   induction e with
-  | and lno l r ihl _ =>
-    intro h
-    have hl := ihl (fun a ha => h a (by simp [andChain, ha]))
-    have hr := att_parseActA_plain (h r (by simp [andChain]))
-    rw [parseChainA, hl, hr]
-    simp [andChain]
+  | or lno l r ihl _ =>
+    intro rs h
+    rw [parseRulesW] at h
+    cases hl : parseRulesW l with
+    | none => simp [hl] at h
+    | some ls =>
+      cases hr : parseRuleW r with
+      | none => simp [hl, hr] at h
+      | some x =>
+        simp only [hl, hr, Option.some.injEq] at h
+        subst h
+        rw [orChain]
+        exact parseAllW_snoc _ _ _ _ (ihl ls hl) hr
   | _ =>
-    intro h
-    simp only [andChain, List.mem_singleton, forall_eq] at h
-    simp [parseChainA, andChain, att_parseActA_plain h]
+    intro rs h
+    simp only [parseRulesW, Option.map_eq_some_iff] at h
+    obtain ⟨x, hx, rfl⟩ := h
+    simp [orChain, parseAllW, hx]
 
-/-- A rule with actions that `parseRule` accepts is accepted by `parseRuleA`, with the same
-condition, the same actions and the same control action. -/
-theorem att_parseRuleA_acts (lno : Nat) (c rhs : Expr) (as : List Expr) (ctl : Ctl) (hc : isCond c = true)
-    (hnb : ∀ l e, rhs ≠ .block l e) (hsp : splitActs (andChain rhs) = some (as, ctl)) :
-    parseRuleA (.mtch lno c rhs) = some (.acts lno c (as.map ActA.plain) ctl) := by
-  rcases splitActs_spec hsp with ⟨rfl, hl, hne, hact⟩ | ⟨hctl, xc, hl, hcx, hact⟩
-  · -- no control action
-    by_cases hand : ∃ l0 l r, rhs = .and l0 l r
-    · obtain ⟨l0, l, r, rfl⟩ := hand
-      rw [andChain] at hl
-      have hr : isActionExpr r = true := hact r (by rw [← hl]; simp)
-      have hls : ∀ a ∈ andChain l, isActionExpr a = true := fun a ha => hact a (by rw [← hl]; simp [ha])
-      simp only [parseRuleA, hc, Bool.not_true, Bool.false_eq_true, if_false, att_isCtl_of_action hr,
-        att_parseChainA_plain l hls, att_parseActA_plain hr]
-      rw [← hl]
-      simp
-    · have hleaf : andChain rhs = [rhs] := att_andChain_leaf rhs (fun l0 l r h => hand ⟨l0, l, r, h⟩)
-      rw [hleaf] at hl
-      subst hl
-      have hr : isActionExpr rhs = true := hact rhs (by simp)
-      cases rhs <;> simp [isActionExpr] at hr <;> simp [parseRuleA, hc, isCtlExpr, parseActA, isActionExpr]
-  · -- `pass` / `break` last
-    by_cases hand : ∃ l0 l r, rhs = .and l0 l r
-    · obtain ⟨l0, l, r, rfl⟩ := hand
-      rw [andChain] at hl
-      have hinj := List.append_inj' hl rfl
-      obtain ⟨h1, h2⟩ := hinj
-      simp only [List.cons.injEq, and_true] at h2
-      subst h2
-      have hls : ∀ a ∈ andChain l, isActionExpr a = true := fun a ha => hact a (by rw [← h1]; exact ha)
-      simp only [parseRuleA, hc, Bool.not_true, Bool.false_eq_true, if_false, hcx, att_parseChainA_plain l hls]
-      rw [← h1]
-      simp
-    · have hleaf : andChain rhs = [rhs] := att_andChain_leaf rhs (fun l0 l r h => hand ⟨l0, l, r, h⟩)
-      rw [hleaf] at hl
-      have hinj := List.append_inj' (s₁ := []) (s₂ := as) (t₁ := [rhs]) (t₂ := [xc]) (by simpa using hl) rfl
-      obtain ⟨h1, h2⟩ := hinj
-      simp only [List.cons.injEq, and_true] at h2
-      subst h2
-      subst h1
-      rcases isCtlExpr_spec hcx with ⟨rfl, lp, rfl⟩ | ⟨rfl, lb, rfl⟩
-      · simp [parseRuleA, hc, isCtlExpr]
-      · simp [parseRuleA, hc, isCtlExpr]
+/-- The two shapes of a rule (`pass` / `break` anywhere). -/
+theorem parseRuleW_spec {x : Expr} {r : Rule} (h : parseRuleW x = some r) :
+    (∃ lno c rhs as ctl, x = .mtch lno c rhs ∧ r = .acts lno c as ctl ∧ isCond c = true ∧
+      (∀ l e, rhs ≠ .block l e) ∧ splitActsW (andChain rhs) = some (as, ctl)) ∨
+    (∃ lno c l e rs, x = .mtch lno c (.block l e) ∧ r = .blk lno c rs ∧ isCond c = true ∧ parseRulesW e = some rs) := by
+  cases x with
+  | mtch lno c rhs =>
+    by_cases hb : ∃ l e, rhs = .block l e
+    · obtain ⟨l, e, rfl⟩ := hb
+      right
+      rw [parseRuleW] at h
+      by_cases hc : isCond c = true
+      · simp only [hc, Bool.not_true, Bool.false_eq_true, if_false, Option.map_eq_some_iff] at h
+        obtain ⟨rs, h1, h2⟩ := h
+        exact ⟨lno, c, l, e, rs, rfl, h2.symm, hc, h1⟩
+      · simp [hc] at h
+    · left
+      have hb' : ∀ l e, rhs ≠ .block l e := fun l e he => hb ⟨l, e, he⟩
+      rw [parseRuleW.eq_2 _ _ _ (fun l e he => hb' l e he)] at h
+      by_cases hc : isCond c = true
+      · simp only [hc, Bool.not_true, Bool.false_eq_true, if_false, Option.map_eq_some_iff] at h
+        obtain ⟨⟨as, ctl⟩, h1, h2⟩ := h
+        exact ⟨lno, c, rhs, as, ctl, rfl, h2.symm, hc, hb', h1⟩
+      · simp [hc] at h
+  | _ => simp [parseRuleW] at h
 
 theorem att_parseAllA_snoc_inv : ∀ (xs : List Expr) (x : Expr) (rs : List RuleA),
     att_parseAllA (xs ++ [x]) = some rs →
-    ∃ rs0 r0, att_parseAllA xs = some rs0 ∧ parseRuleA x = some r0 ∧ rs = rs0 ++ [r0] := by
+    ∃ rs0 r0, att_parseAllA xs = some rs0 ∧ parseRuleAW x = some r0 ∧ rs = rs0 ++ [r0] := by
   intro xs
   induction xs with
   | nil =>
     intro x rs h
     simp only [List.nil_append, att_parseAllA] at h
-    cases hx : parseRuleA x with
+    cases hx : parseRuleAW x with
     | none => simp [hx] at h
     | some r0 =>
       simp only [hx, Option.some.injEq] at h
@@ -173,7 +232,7 @@ theorem att_parseAllA_snoc_inv : ∀ (xs : List Expr) (x : Expr) (rs : List Rule
   | cons y ys ih =>
     intro x rs h
     simp only [List.cons_append, att_parseAllA] at h
-    cases hy : parseRuleA y with
+    cases hy : parseRuleAW y with
     | none => simp [hy] at h
     | some ry =>
       cases hys : att_parseAllA (ys ++ [x]) with
@@ -185,14 +244,14 @@ theorem att_parseAllA_snoc_inv : ∀ (xs : List Expr) (x : Expr) (rs : List Rule
 
 /-- Converse of `att_parseRulesA_orChain`. -/
 theorem att_parseRulesA_of_orChain : ∀ (e : Expr) (rs : List RuleA), att_parseAllA (orChain e) = some rs →
-    parseRulesA e = some rs := by
+    parseRulesAW e = some rs := by
   intro e
   induction e with
   | or lno l r ihl _ =>
     intro rs h
     rw [orChain] at h
     obtain ⟨rs0, r0, h1, h2, h3⟩ := att_parseAllA_snoc_inv _ _ _ h
-    rw [parseRulesA, ihl rs0 h1, h2, h3]
+    rw [parseRulesAW, ihl rs0 h1, h2, h3]
   | _ =>
     intro rs h
     simp only [orChain, att_parseAllA] at h
@@ -200,7 +259,7 @@ theorem att_parseRulesA_of_orChain : ∀ (e : Expr) (rs : List RuleA), att_parse
     · rename_i r0 rs0 hr hn
       simp only [Option.some.injEq] at hn h
       subst hn
-      simp [parseRulesA, hr, ← h]
+      simp [parseRulesAW, hr, ← h]
     · cases h
 
 /-! ## the evaluation -/
@@ -240,38 +299,8 @@ def ResRel (o : BRes × Run) (oA : BRes × RunA) : Prop :=
 theorem RunRel.length {run : Run} {runA : RunA} (h : RunRel run runA) : runA.pend.length = run.pend.length := by
   rw [h.1, att_tag0, List.length_map]
 
-/-- A list of plain actions: an error iff one of them cannot be evaluated, else all are collected. -/
-theorem att_evalActsA_plain {α : Type} (cx : PartCtx α) (aerr : Expr → Bool) (hasPass : Bool) (k : Nat) (m : α) :
-    ∀ (as : List Expr) (runA : RunA),
-    (as.any aerr = true → ∃ r, evalActsA cx aerr hasPass k m (as.map ActA.plain) runA = (Option.none, r) ∧
-      r.crosses = runA.crosses ∧ r.leaks = runA.leaks) ∧
-    (as.any aerr = false → evalActsA cx aerr hasPass k m (as.map ActA.plain) runA =
-      (some true, { runA with pend := runA.pend ++ as.map fun a => (k, a) })) := by
-  intro as
-  induction as with
-  | nil =>
-    intro runA
-    refine ⟨fun h => by simp at h, fun _ => ?_⟩
-    rw [List.map_nil, evalActsA]
-    simp
-  | cons a as ih =>
-    intro runA
-    rw [List.map_cons, evalActsA]
-    by_cases ha : aerr a = true
-    · simp only [ha, if_true]
-      exact ⟨fun _ => ⟨runA, rfl, rfl, rfl⟩, fun h => by simp [ha] at h⟩
-    · simp only [ha, Bool.false_eq_true, if_false]
-      obtain ⟨i1, i2⟩ := ih { runA with pend := runA.pend ++ [(k, a)] }
-      have hany : (a :: as).any aerr = as.any aerr := by simp [ha]
-      rw [hany]
-      refine ⟨fun h => ?_, fun h => ?_⟩
-      · obtain ⟨r, h1, h2, h3⟩ := i1 h
-        exact ⟨r, h1, h2, h3⟩
-      · rw [i2 h]
-        simp [List.append_assoc]
-
 theorem att_bridge {α : Type} (cx : PartCtx α) (aerr : Expr → Bool) (root : α) (n : Nat) :
-    ∀ (rs : List Rule), sizeOf rs < n → ∀ (es : List Expr), parseAll es = some rs → (∀ x ∈ es, wfTree x = true) →
+    ∀ (rs : List Rule), sizeOf rs < n → ∀ (es : List Expr), parseAllW es = some rs → (∀ x ∈ es, wfTree x = true) →
     ∃ rsA, att_parseAllA es = some rsA ∧
       ∀ (nested outerPass : Bool) (start : Nat) (passSeen : Bool) (run : Run) (runA : RunA), RunRel run runA →
         ResRel (evalRules (cx.v 0 root) aerr nested outerPass start rs passSeen run)
@@ -286,8 +315,8 @@ theorem att_bridge {α : Type} (cx : PartCtx α) (aerr : Expr → Bool) (root : 
         cases es with
         | nil => rfl
         | cons x xs =>
-          simp only [parseAll] at hpa
-          cases h1 : parseRule x <;> cases h2 : parseAll xs <;> simp [h1, h2] at hpa
+          simp only [parseAllW] at hpa
+          cases h1 : parseRuleW x <;> cases h2 : parseAllW xs <;> simp [h1, h2] at hpa
       subst hes
       refine ⟨[], rfl, ?_⟩
       intro nested outerPass start passSeen run runA hrel
@@ -299,13 +328,13 @@ theorem att_bridge {α : Type} (cx : PartCtx α) (aerr : Expr → Bool) (root : 
       have hrest : sizeOf rest < n := by
         simp only [List.cons.sizeOf_spec] at hsz; omega
       cases es with
-      | nil => simp [parseAll] at hpa
+      | nil => simp [parseAllW] at hpa
       | cons x xs =>
-        simp only [parseAll] at hpa
-        cases hx : parseRule x with
+        simp only [parseAllW] at hpa
+        cases hx : parseRuleW x with
         | none => simp [hx] at hpa
         | some r' =>
-          cases hxs : parseAll xs with
+          cases hxs : parseAllW xs with
           | none => simp [hx, hxs] at hpa
           | some rest' =>
             simp only [hx, hxs, Option.some.injEq, List.cons.injEq] at hpa
@@ -313,7 +342,7 @@ theorem att_bridge {α : Type} (cx : PartCtx α) (aerr : Expr → Bool) (root : 
             subst hr1 hr2
             have hwx := hwf x (by simp)
             obtain ⟨restA, hrestA, hrestE⟩ := ih rest' hrest xs hxs (fun y hy => hwf y (by simp [hy]))
-            rcases parseRule_spec hx with ⟨lno, c, rhs, as, ctl, rfl, rfl, hc, hnb, hsp⟩ |
+            rcases parseRuleW_spec hx with ⟨lno, c, rhs, as, ctl, rfl, rfl, hc, hnb, hsp⟩ |
               ⟨lno, c, l, e, rs', rfl, rfl, hc, hpr⟩
             · -- actions
               simp only [wfTree, Bool.and_eq_true] at hwx
@@ -344,11 +373,11 @@ theorem att_bridge {α : Type} (cx : PartCtx α) (aerr : Expr → Bool) (root : 
               simp only [wfTree, Bool.and_eq_true] at hwx
               have hrs' : sizeOf rs' < n := by
                 simp only [List.cons.sizeOf_spec, Rule.blk.sizeOf_spec] at hsz; omega
-              obtain ⟨rsA', hA', hE'⟩ := ih rs' hrs' (orChain e) (parseRules_orChain e rs' hpr)
+              obtain ⟨rsA', hA', hE'⟩ := ih rs' hrs' (orChain e) (parseRulesW_orChain e rs' hpr)
                 (att_wfTree_orChain e hwx.2)
               have hpA := att_parseRulesA_of_orChain e rsA' hA'
               refine ⟨.blk lno c rsA' :: restA, ?_, ?_⟩
-              · simp [att_parseAllA, parseRuleA, hc, hpA, hrestA]
+              · simp [att_parseAllA, parseRuleAW, hc, hpA, hrestA]
               · intro nested outerPass start passSeen run runA hrel
                 rw [evalRules, evalRulesA, att_condValA_eq cx 0 root c hwx.1]
                 cases condVal (cx.v 0 root) c with
@@ -372,23 +401,25 @@ theorem att_bridge {α : Type} (cx : PartCtx α) (aerr : Expr → Bool) (root : 
                   | «nomatch» => exact hrestE _ _ _ _ _ _ ⟨e4 (by decide), e2, e3⟩
                   | broke => exact hrestE _ _ _ _ _ _ ⟨e4 (by decide), e2, e3⟩
 
-/-! ## the corollary -/
+/-! ## the corollaries -/
 
-/-- `eval_refines_spec` (the statement of `C03_eval_refines_spec`) from `att_eval_refines_spec`. -/
-theorem att_eval_refines_spec_old (env : Env) (root : Msg) (f : MFlags) (e : Expr) (rules : List Spec.Rule)
-    (hp : Spec.parseBlock e = some rules) (hd : InDomain env e = true)
+/-- The statement of `C03_eval_refines_spec_wide` from `att_eval_refines_spec_wide`. -/
+theorem att_eval_refines_spec_old_wide (env : Env) (root : Msg) (f : MFlags) (e : Expr) (rules : List Spec.Rule)
+    (hp : Spec.parseBlockW e = some rules) (hd : InDomainW env e = true)
     (hl : (Spec.evalBlock (valuation env root f) actionErr rules).crosses = false) :
     let o := Spec.evalBlock (valuation env root f) actionErr rules
     let r := eval env root e 0 root { ml := [], flags := f }
     r.1 = o.res ∧ (o.res = .match → Spec.planOf (mlKeys r.2.ml) = Spec.planOf (o.actions.filterMap Spec.actKey)) := by
+  simp only [InDomainW, Bool.and_eq_true] at hd
+  obtain ⟨hd, hplaced⟩ := hd
   have hw := att_wfTree_of_inDomain hd
   cases e with
   | block lno e' =>
-    simp only [Spec.parseBlock] at hp
+    simp only [Spec.parseBlockW] at hp
     simp only [wfTree] at hw
     obtain ⟨rsA, hA, hE⟩ := att_bridge (partCtx env root f) actionErr root (sizeOf rules + 1) rules (Nat.lt_succ_self _)
-      (orChain e') (parseRules_orChain e' rules hp) (att_wfTree_orChain e' hw)
-    have hpA : Spec.parseBlockA (.block lno e') = some rsA := att_parseRulesA_of_orChain e' rsA hA
+      (orChain e') (parseRulesW_orChain e' rules hp) (att_wfTree_orChain e' hw)
+    have hpA : Spec.parseBlockAW (.block lno e') = some rsA := att_parseRulesA_of_orChain e' rsA hA
     have hrel := hE false false 0 false { pend := [], crosses := false } { pend := [], crosses := false, leaks := false }
       ⟨rfl, rfl, rfl⟩
     have hv : (partCtx env root f).v 0 root = valuation env root f := rfl
@@ -417,8 +448,8 @@ theorem att_eval_refines_spec_old (env : Env) (root : Msg) (f : MFlags) (e : Exp
       | «nomatch» => exact ⟨rfl, e2, e3, fun h => by cases h⟩
       | broke => exact ⟨rfl, e2, e3, fun h => by cases h⟩
     obtain ⟨o1, o2, o3, o4⟩ := hout
-    have hnew := att_eval_refines_spec env root f (.block lno e') rsA hpA (att_inDomainA_of_inDomain hd)
-      (by rw [o2]; exact hl) o3
+    have hnew := att_eval_refines_spec_wide env root f (.block lno e') rsA hpA
+      (by simp [InDomainAW, att_inDomainA_of_inDomain hd, hplaced]) (by rw [o2]; exact hl) o3
     intro o r
     obtain ⟨n1, n2⟩ := hnew
     refine ⟨n1.trans o1, fun hm => ?_⟩
@@ -430,6 +461,114 @@ theorem att_eval_refines_spec_old (env : Env) (root : Msg) (f : MFlags) (e : Exp
       simp [att_tag0, Function.comp_def]
     rw [hmap] at h3
     exact h3
-  | _ => simp [Spec.parseBlock] at hp
+  | _ => simp [Spec.parseBlockW] at hp
+
+/-! ## `pass` / `break` last is a special case -/
+
+theorem ctlPlaced_of_action {a : Expr} (h : isActionExpr a = true) : ctlPlaced a = true := by
+  cases a <;> simp [isActionExpr] at h <;> rfl
+
+theorem filter_noctl_actions : ∀ (as : List Expr), (∀ a ∈ as, isActionExpr a = true) →
+    as.filter (fun x => (isCtlExpr x).isNone) = as := by
+  intro as h
+  rw [List.filter_eq_self]
+  intro a ha
+  rw [att_isCtl_of_action (h a ha)]
+  rfl
+
+/-- What `splitActs` accepts, `splitActsW` accepts with the same result. -/
+theorem splitActsW_of_splitActs {l as : List Expr} {ctl : Ctl} (h : splitActs l = some (as, ctl)) :
+    splitActsW l = some (as, ctl) ∧ placedOK l = true ∧ (∀ y ∈ l, ctlPlaced y = true) := by
+  rcases splitActs_spec h with ⟨rfl, rfl, hne, hact⟩ | ⟨hctl, xc, rfl, hcx, hact⟩
+  · have hnc : ∀ x ∈ l, isCtlExpr x = Option.none := fun x hx => att_isCtl_of_action (hact x hx)
+    refine ⟨?_, placedOK_noctl l hnc, fun y hy => ctlPlaced_of_action (hact y hy)⟩
+    unfold splitActsW
+    rw [ctlOfList_noctl l hnc]
+    have hemp : l.isEmpty = false := by cases l <;> simp at hne ⊢
+    simp only [filter_noctl_actions l hact, hemp, Bool.not_false, Bool.true_and]
+    have : l.all isActionExpr = true := by simpa using hact
+    simp [this]
+  · have hnc : ∀ x ∈ as, isCtlExpr x = Option.none := fun x hx => att_isCtl_of_action (hact x hx)
+    have hxc : (isCtlExpr xc).isSome = true := by rw [hcx]; rfl
+    refine ⟨?_, placedOK_ctl_last as xc hnc hxc, ?_⟩
+    · unfold splitActsW
+      have hctlv : ctlOfList (as ++ [xc]) = some ctl := by
+        rcases isCtlExpr_spec hcx with ⟨rfl, lp, rfl⟩ | ⟨rfl, lb, rfl⟩
+        · exact ctlOfList_pass as [] lp hnc (by simp)
+        · exact ctlOfList_brk as [] lb hnc (by simp)
+      have hxn : (isCtlExpr xc).isNone = false := by rw [hcx]; rfl
+      have hall : as.all isActionExpr = true := by simpa using hact
+      simp [hctlv, List.filter_append, filter_noctl_actions as hact, hxn, hall]
+    · intro y hy
+      rcases List.mem_append.1 hy with hy | hy
+      · exact ctlPlaced_of_action (hact y hy)
+      · simp only [List.mem_singleton] at hy
+        subst hy
+        rcases isCtlExpr_spec hcx with ⟨_, lp, rfl⟩ | ⟨_, lb, rfl⟩ <;> rfl
+
+theorem widen_rules (n : Nat) : ∀ (e : Expr), sizeOf e < n →
+    (∀ r, parseRule e = some r → parseRuleW e = some r ∧ ctlPlaced e = true) ∧
+    (∀ rs, parseRules e = some rs → parseRulesW e = some rs ∧ ctlPlaced e = true) := by
+  induction n with
+  | zero => intro e h; omega
+  | succ n ih =>
+    intro e hsz
+    have hrule : ∀ r, parseRule e = some r → parseRuleW e = some r ∧ ctlPlaced e = true := by
+      intro r h
+      rcases parseRule_spec h with ⟨lno, c, rhs, as, ctl, rfl, rfl, hc, hnb, hsp⟩ | ⟨lno, c, l, e', rs, rfl, rfl, hc, hpr⟩
+      · obtain ⟨g1, g2, g3⟩ := splitActsW_of_splitActs hsp
+        refine ⟨?_, ?_⟩
+        · rw [parseRuleW.eq_2 _ _ _ (fun l e he => hnb l e he)]
+          simp [hc, g1]
+        · simp only [ctlPlaced, Bool.and_eq_true]
+          refine ⟨⟨ctlPlaced_of_isCond c hc, ctlPlaced_of_andChain rhs g3⟩, ?_⟩
+          cases rhs <;> first | exact g2 | exact absurd rfl (hnb _ _)
+      · have hs : sizeOf e' < n := by
+          simp only [Expr.mtch.sizeOf_spec, Expr.block.sizeOf_spec] at hsz; omega
+        obtain ⟨g1, g2⟩ := (ih e' hs).2 rs hpr
+        simp [parseRuleW, hc, g1, ctlPlaced, g2, ctlPlaced_of_isCond c hc]
+    refine ⟨hrule, ?_⟩
+    intro rs h
+    cases e with
+    | or lno l r =>
+      rw [parseRules] at h
+      cases hl : parseRules l with
+      | none => simp [hl] at h
+      | some ls =>
+        cases hr : parseRule r with
+        | none => simp [hl, hr] at h
+        | some x =>
+          simp only [hl, hr, Option.some.injEq] at h
+          have hs1 : sizeOf l < n := by simp only [Expr.or.sizeOf_spec] at hsz; omega
+          have hs2 : sizeOf r < n := by simp only [Expr.or.sizeOf_spec] at hsz; omega
+          obtain ⟨g1, g2⟩ := (ih l hs1).2 ls hl
+          obtain ⟨k1, k2⟩ := (ih r hs2).1 x hr
+          rw [parseRulesW, g1, k1]
+          simp [h, ctlPlaced, g2, k2]
+    | _ =>
+      simp only [parseRules, Option.map_eq_some_iff] at h
+      obtain ⟨x, hx, rfl⟩ := h
+      obtain ⟨g1, g2⟩ := hrule x hx
+      simp [parseRulesW, g1, g2]
+
+/-- What `parseBlock` accepts, `parseBlockW` accepts with the same rules, and the tree is `ctlPlaced`. -/
+theorem parseBlockW_of_parseBlock {e : Expr} {rs : List Rule} (h : parseBlock e = some rs) :
+    parseBlockW e = some rs ∧ ctlPlaced e = true := by
+  cases e with
+  | block lno e' =>
+    simp only [parseBlock] at h
+    obtain ⟨g1, g2⟩ := (widen_rules (sizeOf e' + 1) e' (Nat.lt_succ_self _)).2 rs h
+    exact ⟨by simpa [parseBlockW] using g1, by simpa [ctlPlaced] using g2⟩
+  | _ => simp [parseBlock] at h
+
+/-- `eval_refines_spec` (the statement of `C03_eval_refines_spec`): `pass` / `break` last. -/
+theorem att_eval_refines_spec_old (env : Env) (root : Msg) (f : MFlags) (e : Expr) (rules : List Spec.Rule)
+    (hp : Spec.parseBlock e = some rules) (hd : InDomain env e = true)
+    (hl : (Spec.evalBlock (valuation env root f) actionErr rules).crosses = false) :
+    let o := Spec.evalBlock (valuation env root f) actionErr rules
+    let r := eval env root e 0 root { ml := [], flags := f }
+    r.1 = o.res ∧ (o.res = .match → Spec.planOf (mlKeys r.2.ml) = Spec.planOf (o.actions.filterMap Spec.actKey)) := by
+  obtain ⟨hpw, hpl⟩ := parseBlockW_of_parseBlock hp
+  exact att_eval_refines_spec_old_wide env root f e rules hpw (by simp [InDomainW, hd, hpl]) hl
 
 end Mdsort.Proofs
